@@ -272,6 +272,8 @@ def c14(tier, seed):
         Run("hex", "asan", ["--maxn", "4096"], shards=8, label="hex/asan(default)"),
         Run("hex", "fhex-asan", ["--maxn", "4096"], shards=8, label="hex/asan(faster-hex)"),
         Run("hex", "fhex-memcheck", ["--maxn", "1024"], shards=16, label="hex/memcheck(faster-hex)"),
+        Run("hex", "fhex-memcheck-debug", ["--maxn", "4096"], shards=16, label="hex/memcheck(faster-hex,debug build)"),
+        Run("hex", "memcheck-debug", ["--maxn", "4096"], shards=16, label="hex/memcheck(default,debug build)"),
     ]
 
 
